@@ -165,7 +165,7 @@ def main(tier, seed):
     import parsertwin
     from checks import c03
     items, _modules = vlib.corpus()
-    twin_sources = [c["main"] for c in cases] + LOCATED_ERRORS + c03.mutations(random.Random(seed + 3), items, tier)[: (1500 if tier == "quick" else 15000)]
+    twin_sources = [c["main"] for c in cases] + LOCATED_ERRORS + parsertwin.context_sources(2) + c03.mutations(random.Random(seed + 3), items, tier)[: (1500 if tier == "quick" else 15000)]
     ntwin, stwin = parsertwin.check(rep, bins[0][1], twin_sources, "compile errors (offending token, line, message)", tag="c17twin")
     rep.coverage["states"] = rep.coverage.get("states", 0) + stwin
     rep.coverage["transitions"] = rep.coverage.get("transitions", 0) + stwin
